@@ -142,8 +142,9 @@ def run(run: common.Run):
                 dr2 = np.nanmax(np.abs(r2b - r2r) / np.maximum(1.0, np.abs(r2b))) if np.isfinite(r2b).any() else 0
                 if case['kernel'][0] * case['kernel'][1] == 1:
                     dr2 = 0  # a one-pixel kernel has zero reference variance: R2 = 1 - x/0 is float noise, not a result
-                # gain-offset solves a 2x2 system by float32 differences of sums: its budget is that of C01's OLS (1e-3)
-                if rel > (1e-3 if case['model'] == 'gain-offset' else 2e-4) or dr2 > 5e-2:
+                # gain-offset solves a 2x2 system by float32 differences of sums, gain-blk-offset normalises with a float32 std and
+                # percentile: their budget for factors that are no powers of two is that of C01's second-order quantities (1e-3)
+                if rel > (2e-4 if case['model'] == 'gain' else 1e-3) or dr2 > 5e-2:
                     run.fail(case, f'{tag}: corrected differs by rel {rel:.2e}, R2 by {dr2:.2e} from the scale law',
                              signature=dict(kind='scale-law-tol', which=tag))
         run.sample(dict(case={k: case[k] for k in ('i', 'model', 'kernel', 'a', 'c', 'halvings', 'proc', 'thresh')},
